@@ -14,7 +14,7 @@ How the rules stay indifferent to behaviour-preserving refactorings (shared with
 * a diagnostic is followed to where it ends up (`diag_flow`): VIOLATED only if it is positively discarded.
 """
 import harness
-from facts import norm, call_name, short, subnodes, matches_on, arm_variants, peel_ty, str_lits_in
+from facts import norm, call_name, short, subnodes, matches_on, arm_variants, peel_ty, str_lits_in, field_reads
 from prov import Prov, has_field, has_call
 from templates import field_coverage, enclosing_contexts, variant_table, arm_value, inlined, scope_fns
 
@@ -228,6 +228,8 @@ class KindEval:
         self.node = {}                 # id -> (node, Fn) for the events
         self.unit_variants = set()     # names of payload-free variants met as expressions
         self.closures = {}             # id -> (closure node, Fn) of closures met as values
+        self.frames = []               # (call node, caller Fn) of the callees being evaluated
+        self.ctx = {}                  # id(event node) -> set of frame chains under which the event was emitted
         self.in_closure = []
         self.stack = []
         self.steps = 0
@@ -259,6 +261,39 @@ class KindEval:
     def event_node(self, ev):
         return self.node[ev[2]]
 
+    def event_atoms(self, ev, provs, deep=True):
+        """provenance of the expression of an event, with the parameters of entered callees resolved to the arguments of the calls
+        through which the evaluation reached it (a decision taken inside a helper on a value computed by its caller)"""
+        node, fn = self.node[ev[2]]
+
+        def pv_of(f):
+            if f.path not in provs:
+                provs[f.path] = MProv(f)
+            return provs[f.path]
+
+        def atoms_in(f, expr, chain):
+            pv = pv_of(f)
+            out = set(pv.deep_atoms(expr) if deep else pv.atoms(expr))
+            if not chain:
+                return out
+            call_id, caller_path = chain[-1]
+            call = self.node[call_id][0]
+            caller = self.P.fns.get(caller_path)
+            if caller is None:
+                return out
+            args = all_args(call)
+            for a in list(out):
+                if a[0] == "param":
+                    idx = [i for i, p in enumerate(f.params) if p.get("k") == "Binding" and pv.params.get(p["local"]) == a[1]]
+                    if idx and idx[0] < len(args):
+                        out |= atoms_in(caller, args[idx[0]], chain[:-1])
+            return out
+        chains = self.ctx.get(ev[2]) or {()}
+        res = set()
+        for chain in chains:
+            res |= atoms_in(fn, node, chain)
+        return res
+
     # ---- machinery
     def _body(self, fn, env, evs):
         self.stack.append(fn)
@@ -272,6 +307,8 @@ class KindEval:
         if not self.want(ev):
             return evs
         self.node[id(node)] = (node, self.stack[-1])
+        if self.frames:
+            self.ctx.setdefault(id(node), set()).add(tuple(self.frames))
         return evs + (ev,)
 
     def _seed(self, n):
@@ -584,7 +621,8 @@ class KindEval:
             if o[0] == "brk" and (o[5] is None or o[5] == lbl):
                 outs.append(("ok", o[1] if o[1] is not None else UNIT, n, o[3], o[4], None))
             elif o[0] == "ok" or (o[0] == "cont" and (o[5] is None or o[5] == lbl)):
-                outs.append(("ok", UNIT, n, o[3], o[4], None))   # one iteration, then the loop is left
+                # one iteration, then the loop is left; "again" records that the body asked for another round
+                outs.append(("ok", UNIT, n, o[3], self._emit(o[4], "again", n.get("src") or "loop", n), None))
             else:
                 outs.append(o)
         return outs
@@ -610,13 +648,15 @@ class KindEval:
                 continue
             e = o[3]
             l = n["l"]
+            v = o[4]
             if l.get("k") == "Path" and "local" in l:
+                v = self._emit(v, "assign", l["local"], n, e.get(l["local"]))     # extra: the value the local had before
                 e = dict(e)
                 if o[1] is None:
                     e.pop(l["local"], None)
                 else:
                     e[l["local"]] = o[1]
-            outs.append(("ok", UNIT, n, e, o[4], None))
+            outs.append(("ok", UNIT, n, e, v, None))
         return outs
 
     def _AssignOp(self, n, env, evs):
@@ -652,6 +692,24 @@ class KindEval:
                          "core::option::expect_failed")):
             states, abn = self._seq(n["args"], env, evs)
             return [("div", None, n, e, v, None) for _, e, v in states] + abn
+        if c.endswith("try_trait::Try::branch") and len(n.get("args", [])) == 1:
+            # `x?`: a known Some/Ok continues with its payload, a known None/Err leaves with the residual
+            outs = []
+            for o in self.ev(n["args"][0], env, evs):
+                v0 = o[1]
+                if o[0] == "ok" and v0 is not None and v0[0] == "v" and v0[1] in ("Some", "Ok"):
+                    o = ("ok", ("v", "Continue", v0[2]) if len(v0) > 2 else V("Continue"), n, o[3], o[4], None)
+                elif o[0] == "ok" and v0 is not None and v0[0] == "v" and v0[1] in ("None", "Err"):
+                    o = ("ok", V("Break"), n, o[3], o[4], None)
+                elif o[0] == "ok":
+                    o = ("ok", None, n, o[3], o[4], None)
+                outs.append(o)
+            return outs
+        if c.endswith("try_trait::FromResidual::from_residual"):
+            t = peel_ty(n.get("t") or "")
+            val = V("None") if t.startswith("core::option::Option<") else (V("Err") if t.startswith("core::result::Result<") else None)
+            states, abn = self._seq(n["args"], env, evs)
+            return [("ok", val, n, e, v, None) for _, e, v in states] + abn
         if f.get("k") == "Path" and "local" in f:
             cv = env.get(f["local"])
             if cv is not None and cv[0] == "c" and cv[1] in self.closures and cv[1] not in self.in_closure and len(self.in_closure) < 3:
@@ -725,11 +783,16 @@ class KindEval:
                 penv = {}
                 for p, a in zip(g.params, vals):
                     _, penv = self._test(p, a, penv)
-                for o in self._body(g, penv, v):
-                    if o[0] in ("ok", "ret"):
-                        outs.append(("ok", o[1], o[2], e, o[4], None))
-                    elif o[0] == "div":
-                        outs.append(("div", None, n, e, o[4], None))
+                self.frames.append((id(n), self.stack[-1].path))
+                self.node.setdefault(id(n), (n, self.stack[-1]))
+                try:
+                    for o in self._body(g, penv, v):
+                        if o[0] in ("ok", "ret"):
+                            outs.append(("ok", o[1], o[2], e, o[4], None))
+                        elif o[0] == "div":
+                            outs.append(("div", None, n, e, o[4], None))
+                finally:
+                    self.frames.pop()
                 continue
             outs.append(("ok", None, n, e, v, None))
         return outs
@@ -1295,6 +1358,42 @@ def dispatch_reaches(P, f, adt, variant):
     return any(P.fns[e[1]].crate == f.crate and _takes(P.fns[e[1]], payload) for _, evs, _ in paths for e in evs)
 
 
+KEYED_USE = {"insert", "entry", "contains", "contains_key", "get", "get_mut", "remove", "replace", "binary_search"}
+
+
+def response_keys(P, R, scope):
+    """`Field.alias` is exempt from the coverage rule because no implemented rule merges or identifies selections.  That stops being
+    true as soon as some checker function uses the *name* of a selected field as the key of a set or map (de-duplicating or
+    looking up selections by name): two selections are the same entry of the response iff their response keys (alias, else name)
+    are equal, so such a key has to take the alias into account."""
+    SF = A + "selection_set::Field"
+    keyed = []
+    alias_read = False
+    for p in scope:
+        f = P.fns[p]
+        if f.derived or not f.path.startswith((CK, "<" + CK)):
+            continue
+        if (SF, "alias") in field_reads(f):
+            alias_read = True
+        pv = None
+        for x in f.walk():
+            if x.get("k") == "MethodCall" and x.get("method") in KEYED_USE and x.get("args"):
+                pv = pv or MProv(f)
+                a = pv.atoms(x["args"][0])
+                if any(y[0] == "field" and y[1] == SF and y[2] == "name" for y in a) and not any(y[0] == "field" and y[1] == SF and y[2] == "alias" for y in a):
+                    keyed.append((f, x["method"]))
+    if not keyed:
+        R.holds("R03-a", "response-key", "no checker function identifies selected fields by a key")
+        return
+    f, m = keyed[0]
+    R.check("R03-a", "response-key", alias_read,
+            "selections are keyed by name in %s, and the alias is taken into account" % short(f.path),
+            "%s uses the name of a selected field as a key (`.%s(..)`) and nothing in the checker reads `Field.alias`: selections are "
+            "identified by their response key (alias, else name), so `a: f  b: f` are two fields and `f: x  f: y`-style clashes are one — "
+            "keyed by name alone, two aliased selections of one schema field collapse (e.g. a subscription with two root fields is accepted)"
+            % (f.path, m), loc=f.loc())
+
+
 def every_element_checked(P, R, disp, adt):
     """Inside the dispatcher, whether an element is handed to the function that checks its kind may depend on its *kind* only: a
     condition around (or an early exit before) that call which reads the element's own content makes the rules skip some
@@ -1318,6 +1417,23 @@ def every_element_checked(P, R, disp, adt):
                 reads = sorted({"%s.%s" % (a[1].split("::")[-1], a[2]) for a in pv.atoms(ge) if a[0] == "field" and a[1] == payload})
                 if reads:
                     bad.append((short(call_name(g.nodes()[i][0])), reads))
+        # ... nor may the checker be *told* where the element came from: an argument computed from the components of a source
+        # position (file, line, builtin) next to the element is a condition on its origin passed down instead of tested here
+        told = []
+        for i in sites:
+            c = g.nodes()[i][0]
+            for a in all_args(c):
+                t = (a.get("t") or "").strip()
+                if t.startswith("&") or peel_ty(t).split("<")[0] == A + "base::Pos":
+                    continue       # borrowed data / accumulators, or a position handed over as such (for the diagnostic)
+                comps = sorted({x[2] for x in pv.atoms(a) if x[0] == "field" and x[1] == A + "base::Pos"})
+                if comps and any(x[0] == "field" and x[1] == payload for x in pv.atoms(a)):
+                    told.append((short(call_name(c)), comps))
+        R.check("R03-a", "origin-blind:%s::%s" % (adt.path.split("::")[-1], var["name"]), not told,
+                "the checker of a %s is not told where the %s came from" % (var["name"], var["name"]),
+                "%s passes %s an argument computed from the source position of the %s (Pos.%s): rules are then applied or skipped "
+                "according to the file a definition was written in (an imported fragment escapes a rule that a local one is held to)"
+                % (disp.path, told[0][0] if told else "", var["name"], "/".join(told[0][1]) if told else ""), loc=disp.loc())
         R.check("R03-a", "every:%s::%s" % (adt.path.split("::")[-1], var["name"]), not bad,
                 "every %s is handed to its checker, whatever it contains" % var["name"],
                 "%s applies %s only under a condition that reads %s of the %s itself: the ones for which the condition fails are never "
@@ -1392,6 +1508,7 @@ def r03a(P, R):
     scope = checker_scope(P)
     R.count("functions_reachable_from_check_operation_document", len(scope))
     n = field_coverage(P, R, "R03-a", scope, [A + t for t in EXEC_AST], EXEMPT, "the operation checker (reachable from check_operation_document)")
+    response_keys(P, R, scope)
     R.floor("R03-a", "executable AST content fields", n, 28)
     # every variant of the executable sum types is dispatched explicitly: where the checker dispatches on the kind (a `match` used
     # as a statement), no kind may fall into an arm that does nothing
